@@ -2696,8 +2696,13 @@ int uv_fs_event_start(uv_fs_event_t* handle,
 
   len = strlen(path) + 1;
   w = uv__malloc(sizeof(*w) + len);
-  if (w == NULL)
+  if (w == NULL) {
+    /* Nobody watches wd (no watcher list exists for it): drop the kernel
+     * watch that was just added instead of leaving it behind.
+     */
+    inotify_rm_watch(loop->inotify_fd, wd);
     return UV_ENOMEM;
+  }
 
   w->wd = wd;
   w->path = memcpy(w + 1, path, len);
